@@ -251,3 +251,29 @@ def replay(case) -> List[Violation]:
         return [Violation(s, m, c) for s, m, c in judge_history(tuple(case["prog"]), case["ctxs"], case["detail"], case["mode"], scratch)]
     bad, info = judge_case(tuple(case["prog"]), case["ctx"], case["detail"], case["mode"], scratch, bool(case.get("aliased")))
     return [Violation(failure_signature(bad[0], info["class"]), bad[1], case)] if bad else []
+
+
+# ---------------------------------------------------------------------------------------------
+# environment grid (mc/envgrid.py): the shape of the trace and the exception that reaches the caller do not depend on the process
+
+# one node resolving four parameters from the context: whatever lists them (required keys, checks, sources) has 24 possible orders
+ENV_MANY_KEYS = [("src", "five_cfg"), ("src", "five_cfg", "probe_r"), ("src_ctx", "five_cfg", "tmpl_a")]
+
+
+def env_cases(tier: str):
+    from mc import envgrid
+
+    jobs = [j for j in plan("quick") if len(j) == 3]
+    short = [j for j in jobs if len(j[0]) <= 2]
+    long_ = [j for j in jobs if len(j[0]) > 2]
+    sel = envgrid.pick(short, 30 if tier == "quick" else 200) + envgrid.pick(long_, 30 if tier == "quick" else 200)
+    sel += [(p, d, "file") for p in ENV_MANY_KEYS for d in ("hash", "all")]
+    return [{"prog": list(p), "detail": d, "mode": m, "ctx": cases_for(p)[-1]} for p, d, m in sel]
+
+
+def env_observe(case):
+    from mc import envgrid
+
+    scratch = envgrid.scratch()
+    bad, info = judge_case(tuple(case["prog"]), case["ctx"], case["detail"], case["mode"], scratch)
+    return envgrid.norm({"judged": bad[0] if bad else None, "class": info.get("class"), "records": info.get("records")}, scratch)
